@@ -497,7 +497,52 @@ class Evaluator:
                     return
             yield st, self.unknown(st, 'expr:%s' % k, n)
             return
-        yield from h(n, st)
+        mv = self.consumed_moves(n) if k in self.CALL_KINDS else ()
+        if not mv:
+            yield from h(n, st)
+            return
+        c0 = self.inline_count
+        for st2, t in h(n, st):
+            if self.inline_count == c0:
+                # std::move(x) handed to a library function / constructor that takes it by rvalue reference: x is left moved-from
+                for a in mv:
+                    for st3, loc in list(self.eval(a, st2.clone())):
+                        loc = self.ri_norm(loc)
+                        import os
+                        if os.environ.get('CAPCHECK_DEBUG_MOVE'):
+                            print('MOVE', show(loc) if isinstance(loc, tuple) else loc, loc)
+                        if isinstance(loc, tuple) and loc and loc[0] in ('fld', 'idx', 'deref', 'optval') and root_of(loc)[0] in ('field', 'this', 'heap'):
+                            self.write(st2, loc, ('moved', self.load(st2, loc, a)), a, 'move')
+                        break
+            yield st2, t
+
+    CALL_KINDS = ('CXXConstructExpr', 'CXXTemporaryObjectExpr', 'CallExpr', 'CXXMemberCallExpr', 'CXXOperatorCallExpr')
+    inline_count = 0
+
+    def consumed_moves(self, n):
+        """argument nodes x of this call written `std::move(x)` and bound to an rvalue / forwarding reference parameter (an argument
+        bound to `const T&` carries a NoOp cast to const, one passed by value is a CXXConstructExpr of its own)"""
+        if '_mv' in n:
+            return n['_mv']
+        out = []
+        inner = [c for c in n.get('inner', []) if isinstance(c, dict) and c.get('kind')]
+        args = inner if n.get('kind') in ('CXXConstructExpr', 'CXXTemporaryObjectExpr') else inner[1:]
+        if n.get('kind') == 'CallExpr':
+            cn = self.callee_name(n)[0]
+            if cn in ('move', 'forward', 'as_const', 'addressof', 'swap', 'exchange'):
+                args = []
+        for a in args:
+            while a.get('kind') in ('ParenExpr', 'ExprWithCleanups'):
+                sub = [c for c in a.get('inner', []) if isinstance(c, dict) and c.get('kind')]
+                if len(sub) != 1:
+                    break
+                a = sub[0]
+            if a.get('kind') == 'CallExpr' and a.get('valueCategory') == 'xvalue' and self.callee_name(a)[0] == 'move':
+                sub = a['inner'][1:]
+                if len(sub) == 1 and sub[0].get('valueCategory') == 'lvalue':
+                    out.append(sub[0])
+        n['_mv'] = out
+        return out
 
     def e_ImplicitCastExpr(self, n, st):
         ck = n.get('castKind')
@@ -911,6 +956,8 @@ class Evaluator:
         for st2, ts in self.eval_args(args, st):
             if tc == 'optional' and ts and ts[0] == ('global', 'in_place'):
                 ts = ts[1:]                 # optional<T>{std::in_place, args...}: engaged, built from args
+                if len(ts) == 2 and re.match(r'(const\s+)?std::optional<\s*std::pair<', qt(n) or ''):
+                    ts = [('pair', ts[0], ts[1])]       # T is a pair: in_place forwards (a, b) to pair{a, b}
             if tc == 'pair' and len(ts) == 2:
                 yield st2, ('pair', ts[0], ts[1])       # std::pair<A, B>{a, b} == std::make_pair(a, b)
                 continue
@@ -1933,6 +1980,7 @@ class Evaluator:
 
     # ------------------------------------------------------------------ inlining
     def inline(self, m, args, n, st, this_obj=None):
+        self.inline_count += 1
         if len(st.fn_stack) >= MAX_DEPTH or m.qname in st.fn_stack[1:] and st.fn_stack.count(m.qname) > 1:
             yield st, self.unknown(st, 'inline depth/recursion at %s' % m.qname, n)
             return
@@ -2709,6 +2757,8 @@ class Evaluator:
         from a havocked state.  Iteration paths that return terminate the function."""
         lid = st.fresh()
         L = Loop(lid, kind, site_of(n, st))
+        if range_info is not None:
+            L.range = range_info[0]
         ids = set()
         for part in (cond, inc, body, cond_decl):
             if part is not None:
@@ -2975,6 +3025,13 @@ class Evaluator:
         loc = ('fld', ('this',), name)
         if not inner:
             return
+        if inner[0].get('kind') == 'CXXDefaultInitExpr' and not [c for c in inner[0].get('inner', []) if c.get('kind')]:
+            # no mem-initialiser: the member's default member initialiser runs
+            f = getattr(self.cm, 'field_by_name', {}).get(name)
+            fin = [c for c in (f.node.get('inner', []) if f is not None else []) if isinstance(c, dict) and c.get('kind') and not c['kind'].endswith('Comment')]
+            if not fin:
+                return
+            inner = fin
         outs = list(self.rv(inner[0], st)) if inner[0].get('valueCategory') != 'prvalue' else list(self.eval(inner[0], st))
         if outs:
             st2, t = outs[0]
